@@ -26,7 +26,7 @@ PID = "C10"
 PROOF_FILES = ["theories/Props/C10.v", "theories/Proofs/DistBase.v", "theories/Proofs/DistPoint.v",
                "theories/Proofs/DistTriangle.v", "theories/Proofs/DistRect.v", "theories/Proofs/DistRound.v",
                "theories/Proofs/DistLine.v", "theories/Proofs/DistPlane.v", "theories/Proofs/DistPlaneHull.v",
-               "theories/Proofs/DistComb.v", "theories/Proofs/DistCombOpt.v", "theories/Proofs/DistPlaneRound.v",
+               "theories/Proofs/DistComb.v", "theories/Proofs/DistCombOpt.v", "theories/Proofs/DistPlaneRound.v", "theories/Proofs/DistBoxOpt.v",
                "theories/Checker/Prim.v"]
 TOL_ON = 1e-9
 TOL_CONS = 1e-6
